@@ -929,13 +929,63 @@ func c08r5(c *core.Ctx) {
 	}
 }
 
-// internal operations that leave event emission to their callers (frozen, reason: their doc comments return the masks for the caller to emit).
-var emitByCaller = map[string]bool{"World.newEntity": true, "World.newEntities": true, "World.add": true, "World.exchange": true}
+// internalOps derives the internal operations of the world: unexported methods of World that (transitively) mutate rows.
+// Those that dispatch no post event themselves leave the emission to their callers.
+func internalOps(c *core.Ctx, a *Anchors) (ops map[*core.Func]bool, emitByCaller map[*core.Func]bool) {
+	m := c.M
+	ops, emitByCaller = map[*core.Func]bool{}, map[*core.Func]bool{}
+	for _, f := range m.Funcs {
+		if f.Recv != "World" || f.Obj == nil || f.Obj.Exported() || f.Sig == nil {
+			continue
+		}
+		mut := false
+		for _, s := range c.Eff.Stores(f) {
+			if s.Path.Last() == "table.len" {
+				mut = true
+			}
+		}
+		if !mut {
+			continue
+		}
+		ops[f] = true
+		firesPost := false
+		var visit func(g *core.Func, depth int)
+		seen := map[*core.Func]bool{}
+		visit = func(g *core.Func, depth int) {
+			if seen[g] || depth > 4 {
+				return
+			}
+			seen[g] = true
+			core.InspectNoLits(g.Body, func(n ast.Node) bool {
+				if call, ok := n.(*ast.CallExpr); ok {
+					if fc := a.FireCallOf(g, call); fc != nil && postEvents[fc.Event] {
+						firesPost = true
+					}
+					if k, cal, _ := m.Callee(call); k == core.CallStatic && cal.Recv == "World" {
+						visit(cal, depth+1)
+					}
+				}
+				return true
+			})
+		}
+		visit(f, 0)
+		if !firesPost {
+			// per-table helpers of batch operations are not called by API methods; keep only ops with an API-side caller
+			emitByCaller[f] = true
+		}
+	}
+	return
+}
 
 // c08r6: emission sites agree.
 func c08r6(c *core.Ctx) {
 	a := GetAnchors(c)
 	m := c.M
+	_, emitByCallerF := internalOps(c, a)
+	emitByCaller := map[string]bool{}
+	for f := range emitByCallerF {
+		emitByCaller[f.Name] = true
+	}
 	type sig struct {
 		f    *core.Func
 		evts map[string]string // event -> guard category
@@ -967,7 +1017,7 @@ func c08r6(c *core.Ctx) {
 			}
 			return true
 		})
-		if op == "" || emitByCaller[f.Name] {
+		if op == "" || emitByCaller[f.Name] || (f.Recv == "World" && f.Obj != nil && !f.Obj.Exported()) {
 			continue
 		}
 		s := sig{f: f, evts: map[string]string{}, rel: relParam(f) != nil}
